@@ -63,31 +63,10 @@ Definition is_self_closing_start (t : tok) : bool :=
 
 Definition is_nil {A} (l : list A) : bool := match l with [] => true | _ => false end.
 
-(* THE SHAPE ASSUMPTION of the no-panic theorem (TreeInvMain.tree_no_panic_partial): three facts relating the
-   insertion mode to the stack of open elements that the proof takes as a hypothesis on every configuration of
-   the loop instead of deriving them (they need a full grammar of the stack per mode):
-     - in the modes "in head", "in head noscript" and "text" the stack holds at least two elements;
-     - in the mode "in cell" a td or th element is open;
-     - in the mode "in table body", when the (html5ever) test of the <caption>/<col>/.../</table> arm succeeds,
-       a tbody / tfoot / thead / template element is open.
-   [ptc_iter] evaluates it on every iteration and logs a marker (pseudo arm 31.0) when it fails, so that every
-   correspondence run doubles as a test of the assumption. *)
-Definition is_mode (m m' : imode) : bool := mode_eqb m m'.
-Definition hshape_b (s : st) : bool :=
-  (if is_mode (mode s) InHead || is_mode (mode s) InHeadNoscript || is_mode (mode s) Text
-   then Nat.leb 2 (length (open_elems s)) else true) &&
-  (if is_mode (mode s) InCell
-   then existsb (fun x => in_set td_th (ename_of s x)) (open_elems s) else true) &&
-  (if is_mode (mode s) InTableBody && dev_on s 11 &&
-      in_scope s table_scope (fun e => in_set table_outer_body (ename_of s e))
-   then existsb (fun x => in_set (html_names ["tbody"; "tfoot"; "thead"; "template"]%string) (ename_of s x)) (open_elems s)
-   else true).
-
 (* one iteration of the loop: either the TokenSinkResult, or the next token and queue *)
 Definition ptc_iter (t : tok) (more_tokens : list tok) : M (sink_result + tok * list tok) :=
   let should_have_acknowledged_self_closing_flag := is_self_closing_start t in
-  s0 <- get ;;
-  when (negb (hshape_b s0)) (log_arm 31 0) ;;
+  shape_check ;;
   foreign <- is_foreign t ;;
   result <- (if foreign then step_foreign t else s <- get ;; step (mode s) t) ;;
   match result with
@@ -217,8 +196,7 @@ Definition arm_counts : list (nat * nat) :=
     (mode_id AfterBody, length heads_after_body); (mode_id InFrameset, length heads_in_frameset);
     (mode_id AfterFrameset, length heads_after_frameset); (mode_id AfterAfterBody, length heads_after_after_body);
     (mode_id AfterAfterFrameset, length heads_after_after_frameset); (foreign_id, length heads_foreign);
-    (30, 54) (* helper probes, TreeModelHelpers.probe *);
-    (31, 1) (* 31.0 = the shape assumption failed (must stay uncovered) *) ].
+    (30, 54) (* helper probes, TreeModelHelpers.probe *) ].
 
 (* ---------- running ---------- *)
 Definition take_out (s : st) : list event * st := (rev (out s), set_out [] s).
